@@ -464,6 +464,8 @@ type concCase struct {
 	slowat   int    // source Emit call index that takes `slowms` milliseconds before it returns (-1 = none): a quiet source
 	slowms   int
 	ptr      bool   // concurrent map to a POINTER type whose mapper returns nil for elements i with i%3 == 1
+	tail     bool   // the asynchronous stage is the SECOND inner stream of ConcatStreams(empty, stage): opened from emit, under the caller's ctx
+	twice    bool   // the source is ConcatStreams(probe stream, probe stream): one provider, two open windows in a row
 	outerr   bool   // the source is Concat(stream of streams): the outer stream yields the probe stream, then fails
 	ctxbound bool   // concurrent-consume callbacks (other than the failing one) run until THEIR ctx is cancelled
 	ign      bool   // gated callbacks do not look at their ctx: they return (nil) only when the environment releases them
@@ -538,6 +540,10 @@ func parseConcCase(text string) (*concCase, error) {
 			cc.ptr = v == "1"
 		case "outerr":
 			cc.outerr = v == "1"
+		case "twice":
+			cc.twice = v == "1"
+		case "tail":
+			cc.tail = v == "1"
 		case "ctxbound":
 			cc.ctxbound = v == "1"
 		case "ign":
@@ -748,6 +754,12 @@ func (r *concRun) d7Filter(v int) bool {
 
 func (r *concRun) failingOpen() stream.Lifecycle {
 	return stream.NewLifecycle(func(ctx context.Context) error {
+		if r.cc.slowret > 0 && r.cc.park >= 0 {
+			// history cases: the open fails while the stage's reader goroutine sits inside the source's Emit
+			for i := 0; i < 4000 && !r.src.parked.Load(); i++ {
+				time.Sleep(50 * time.Microsecond)
+			}
+		}
 		if r.cc.ofail == "panic" {
 			panic(errConcUser)
 		}
@@ -782,6 +794,10 @@ func (r *concRun) baseStream() stream.Stream[int] {
 			}
 			return stream.Empty[int](), errConcUser
 		}))
+	}
+	if cc.twice {
+		// two passes over one provider: the first window must be closed before the second opens
+		src = stream.ConcatStreams(src, src)
 	}
 	for i := 0; i < cc.lcx; i++ {
 		// elements on top of the provider's own: the provider must still be closed only after its reader has left it
@@ -820,6 +836,11 @@ func (r *concRun) baseStream() stream.Stream[int] {
 		b = stream.Buffered(cmap(src), cc.size)
 	default:
 		b = src
+	}
+	if cc.tail && cc.op != "ccons" && cc.op != "pipe" {
+		// Concat opens its later inner streams while emitting, not while opening: the stage's goroutines must still be
+		// stopped and joined when the materialisation ends
+		b = stream.ConcatStreams(stream.Empty[int](), b)
 	}
 	if cc.ofail != "" && cc.op != "ccons" && cc.op != "pipe" {
 		b = b.WithAdditionalLifecycle(r.failingOpen())
